@@ -79,12 +79,34 @@ class Graph:
         self._od_log, self._od_replay = [], []
         vf.ondemand = self._ondemand_real
         self.ondemand_applied = 0
+        self.ondemand_failed = 0
 
     def _ondemand_real(self, mid):
         if mid in self._od_real or self._cur is None:
             return
         self._od_real.add(mid)
         n, ms = self._cur, self.mspecs[mid]["extra"]
+        if ms.get("bad"):
+            # a registration that cannot be built (its parameters clash with everybody else's): the caller catches
+            # the error and takes the method out again - the set of methods is what it was, and the call goes on
+            src = "def f(acc, x=None):\n    return 'bad'\n"
+            ns, file = load_source(src, self.ns, mid=ms["mid"], tag=self.tag, shared=True)
+            self.files.append(file)
+            bad = ns["f"]
+            bad.__annotations__ = {"acc": self.env.cls(ms["t"])}
+            try:
+                n.ov.register(bad)
+            except Exception as e:  # noqa: BLE001
+                if "locked for modifications" in str(e):
+                    self._od_log.append("refused")
+                    return
+                self.ondemand_failed += 1
+            try:
+                n.ov.unregister(bad)
+            except Exception:  # noqa: BLE001
+                pass
+            self._od_log.append("failed")
+            return
         try:
             fn = self.make(ms, n.id)
             n.ov.register(fn, priority=ms.get("prio", 0))
